@@ -227,3 +227,11 @@ Definition sys_set_physmaps (s : sys) (maxaddr : N) : lstatus * sys :=
           [ {| r_first := 0; r_last := maxaddr; r_meth := METH_KPHYS_MACHPHYS; r_act := ACT_IDENT_MACHPHYS |} ]
   | bad => bad
   end.
+
+(** [sys_cleanup] (called by [addrxlat_sys_os_init] before every
+    initialisation): the five maps are dropped, [sys->meth[]] is KEPT (only
+    look-up methods that use the OS look-up table, which are not part of this
+    model, are reset) *)
+Definition sys_cleanup (s : sys) : sys :=
+  {| map_hw := None; map_kv_phys := None; map_kphys_direct := None;
+     map_machphys_kphys := None; map_kphys_machphys := None; meths := meths s |}.
